@@ -146,7 +146,7 @@ func genIface(r *rand.Rand, idx int, placement string, stream string) IfaceJ {
 	if r.Intn(5) == 0 {
 		it.Name = fmt.Sprintf("iface%d", idx) // unexported
 	}
-	g := &tyGen{r: r, allowSrc: true, unexpOK: placement == "inpkg", exportedOnly: placement != "inpkg"}
+	g := &tyGen{r: r, allowSrc: stream != "ensure-split", unexpOK: placement == "inpkg", exportedOnly: placement != "inpkg"}
 	if placement != "inpkg" && !strings.HasPrefix(it.Name, "I") {
 		// an unexported interface cannot be named from another package
 		it.Name = fmt.Sprintf("Iface%d", idx)
@@ -307,6 +307,9 @@ func genData(r *rand.Rand, idx int, prop string, stream string) DataInput {
 		in.DstPkgPath, in.InPackage, in.PkgName = "example.com/m/mocks", false, "mocks"
 	}
 	ni := 1 + r.Intn(3)
+	if stream == "ensure-split" && ni < 2 {
+		ni = 2
+	}
 	for k := 0; k < ni; k++ {
 		in.Ifaces = append(in.Ifaces, genIface(r, k, in.Placement, stream))
 	}
